@@ -264,10 +264,14 @@ def pick(insns, maps, rng, count, seen=None):
     order = sorted(pools)
     rng.shuffle(order)
     out = []
+    rounds = 0
     while order and len(out) < count:
+        rounds += 1
         for c in list(order):
             if len(out) >= count:
                 break
+            if c == "const" and rounds % 4 != 1 and len(order) > 1:      # far from any rule: a small share only
+                continue
             pool = pools[c]
             while pool:
                 what, new = pool.pop()
